@@ -86,20 +86,21 @@ def tree_in_domain(t, dist, is_root, istart):
 
 
 def _tree_cases(H, Ls, coeffs):
-    nodes = [t for t in tree_nodes(H, [1, 2], coeffs, [0, 1]) if t[0] != 'leaf']
+    # the tree whose root is a leaf (height 0, no operator) is part of the space: it denotes the identity string
+    nodes = tree_nodes(H, [1, 2], coeffs, [0, 1])
     for L in Ls:
         for t in nodes:
             h = tree_height(t)
-            for istart in range(0, L - h + 1):
-                if istart == 0 and t[0] != 0:
+            for istart in range(0, L - max(h, 1) + 1):      # a start site is a lattice site, also for the height-0 tree
+                if istart == 0 and t[0] not in (0, 'leaf'):
                     continue
                 yield {'L': L, 'trees': [[istart, t]]}
 
 
 def _pair_cases(Ls, coeffs):
-    nodes = [t for t in tree_nodes(1, [1, 2], coeffs, [0, 1]) if t[0] != 'leaf']
+    nodes = tree_nodes(1, [1, 2], coeffs, [0, 1])
     for L in Ls:
-        cands = [[istart, t] for t in nodes for istart in range(0, L) if not (istart == 0 and t[0] != 0)]
+        cands = [[istart, t] for t in nodes for istart in range(0, L) if not (istart == 0 and t[0] not in (0, 'leaf'))]
         for a, b in itertools.product(cands, repeat=2):
             yield {'L': L, 'trees': [a, b]}
 
